@@ -1,5 +1,7 @@
 import Pcore.Model.DispatchCtors
 import Pcore.Model.CtorNum
+import Pcore.Model.CtorBinary
+import Pcore.Model.CtorTimespan
 /-!
 # `new` on the driver's alphabet: which constructor a receiver gets, and the whole call (property C16)
 
@@ -34,6 +36,8 @@ def ctorOf : Ty → CtorLookup
   | .float _ _ => .some (floatCtor pf)
   | .numeric => .some (numericCtor pf)
   | .bool => .some booleanCtor
+  | .binary => .some binaryCtor
+  | .timespan _ _ => .some timespanCtor
   | .arr _ _ _ => .some arrayCtor
   | .tuple _ => .some arrayCtor
   | .hash _ _ _ _ => .some hashCtor
